@@ -79,11 +79,13 @@ class Destinations(object):
 
         @param logger: The ``ILogger`` that wrote the message, if any.
         """
-        message.update(self._globalFields)
-        errors = []
+        # Decide this before merging in the global fields: a global field
+        # called "message_type" must not disable the recursion guard below.
         is_destination_error_message = (
             message.get("message_type", None) == DESTINATION_FAILURE
         )
+        message.update(self._globalFields)
+        errors = []
         for dest in self._destinations:
             try:
                 dest(message)
